@@ -28,7 +28,12 @@ type SchedConfig struct {
 	Sandbox      string   `json:"sandbox,omitempty"`
 	FaultOpIndex int      `json:"fault_op_index,omitempty"`
 	FaultErrno   string   `json:"fault_errno,omitempty"`
+	DenyCreate   bool     `json:"deny_create,omitempty"` // fault: no new directory entries (EACCES), existing files stay writable
 	Out          string   `json:"out,omitempty"`
+	// ProcEnv: variables of the PROCESS the world runs in (garbage-collector
+	// pacing: GOGC, GOMEMLIMIT). A world that carries them runs in a fresh
+	// worker process started with them; the simulator runtime ignores them.
+	ProcEnv []string `json:"proc_env,omitempty"`
 }
 
 type SiteStat struct {
